@@ -55,10 +55,11 @@ const (
 	opHTTPRejected
 	opHTTPFallbackOK
 	opT2JMissingRequired
+	opKitexHeaderReuse
 	nOps
 )
 
-var opNames = []string{"t2j", "j2t", "t2j-http", "t2j-truncated", "j2t-malformed", "dom-load-marshal", "cut", "get-by-path", "lookup", "p2j-j2p", "j2p-malformed", "p2j-truncated", "j2t-http", "proto-generic", "http-empty-body", "http-fallback-rejected", "http-fallback-valid", "t2j-missing-required"}
+var opNames = []string{"t2j", "j2t", "t2j-http", "t2j-truncated", "j2t-malformed", "dom-load-marshal", "cut", "get-by-path", "lookup", "p2j-j2p", "j2p-malformed", "p2j-truncated", "j2t-http", "proto-generic", "http-empty-body", "http-fallback-rejected", "http-fallback-valid", "t2j-missing-required", "t2j-kitex-headers-then-buffer-reuse"}
 
 type Op struct {
 	Kind int `json:"k"`
@@ -90,7 +91,13 @@ struct HResp {
 	2: string Dflt
 	3: Inner In
 }
-service H { HResp Call(1: HReq req) }
+struct KResp {
+	1: list<string> Tags (api.header = "X-Tags")
+	2: string Msg
+	3: list<string> More (api.header = "X-More")
+	4: string One (api.header = "X-One")
+}
+service H { HResp Call(1: HReq req), KResp Kitex(1: HReq req) }
 `
 
 type httpFixture struct {
@@ -100,6 +107,9 @@ type httpFixture struct {
 	wantEmpty   []byte         // {1:"n"}
 	wantValid   []byte         // {1:"n",2:7}
 	respMissing []byte         // {3:{1:"x"}}: required field 1 absent
+	kresp       *thrift.TypeDescriptor
+	kitex       t2j.BinaryConv // EnableHttpMapping + UseKitexHttpEncoding
+	kmsg        []byte         // KResp{Tags:["tag-one"], Msg:"m", More:["a","b"], One:"one"}
 }
 
 func newHTTPFixture() (*httpFixture, error) {
@@ -114,6 +124,16 @@ func newHTTPFixture() (*httpFixture, error) {
 		fallback: j2t.NewBinaryConv(conv.Options{EnableHttpMapping: true, ReadHttpValueFallback: true, TracebackRequredOrRootFields: true})}
 	h.wantEmpty = tm.Encode(&tm.Value{K: tm.STRUCT, Fields: []tm.FieldVal{{ID: 1, V: str("n")}}})
 	h.wantValid = tm.Encode(&tm.Value{K: tm.STRUCT, Fields: []tm.FieldVal{{ID: 1, V: str("n")}, {ID: 2, V: &tm.Value{K: tm.I32, I: 7}}}})
+	h.kresp = svc.Functions()["Kitex"].Response().Struct().FieldById(0).Type()
+	h.kitex = t2j.NewBinaryConv(conv.Options{EnableHttpMapping: true, UseKitexHttpEncoding: true})
+	strs := func(xs ...string) *tm.Value {
+		l := &tm.Value{K: tm.LIST, ET: tm.STRING}
+		for _, x := range xs {
+			l.Elems = append(l.Elems, str(x))
+		}
+		return l
+	}
+	h.kmsg = tm.Encode(&tm.Value{K: tm.STRUCT, Fields: []tm.FieldVal{{ID: 1, V: strs("tag-one")}, {ID: 2, V: str("m")}, {ID: 3, V: strs("a", "b")}, {ID: 4, V: str("one")}}})
 	h.respMissing = tm.Encode(&tm.Value{K: tm.STRUCT, Fields: []tm.FieldVal{{ID: 3, V: &tm.Value{K: tm.STRUCT, Fields: []tm.FieldVal{{ID: 1, V: str("x")}}}}}})
 	return h, nil
 }
@@ -413,6 +433,27 @@ func (e *env) run(op Op, keep *[]held) (msg string) {
 		if out, err := e.tj.Do(ctx, e.hfix.resp, in); err == nil {
 			return fmt.Sprintf("t2j accepts a message whose outer struct lacks a required field: %s", out)
 		}
+	case opKitexHeaderReuse:
+		// the caller converts out of its own receive buffer and then reuses that buffer: what was delivered to the
+		// response (NoCopyString is off) must stay what it was
+		in := append(make([]byte, 0, len(e.hfix.kmsg)+16), e.hfix.kmsg...)
+		resp := dhttp.NewHTTPResponse()
+		rctx := context.WithValue(ctx, conv.CtxKeyHTTPResponse, resp)
+		out, err := e.hfix.kitex.Do(rctx, e.hfix.kresp, in)
+		if err != nil {
+			return "t2j with kitex http encoding fails: " + err.Error()
+		}
+		for i := range in {
+			in[i] = 'Z'
+		}
+		if string(out) != `{"Msg":"m"}` {
+			return fmt.Sprintf("t2j with kitex http encoding: body %s, want {\"Msg\":\"m\"}", out)
+		}
+		for k, want := range map[string]string{"X-Tags": "tag-one", "X-More": "a,b", "X-One": "one"} {
+			if got := resp.Response.Header.Get(k); got != want {
+				return fmt.Sprintf("response header %s is %q after the caller reused its input buffer, it was delivered as %q", k, got, want)
+			}
+		}
 	case opP2JBad:
 		if len(cs.Msg) < 2 {
 			return ""
@@ -577,7 +618,7 @@ func check(c *pbt.Ctx, cs Case) {
 
 var Prop = pbt.Register(pbt.Prop[Case]{
 	Name: "TestSharedUse",
-	Rule: "generated Thrift descriptor + conforming message + JSON document, generated proto3 schema + message, and a drawn history: 1..8 goroutines, each with a drawn list of operations (t2j, j2t, t2j HTTPConv.Do, j2t HTTPConv.Do, proto DOM Load+Marshal, t2j on a truncated message, j2t on a truncated document, DOM Load+Marshal, MarshalTo, GetByPath, descriptor lookups, p2j+j2p, j2p on malformed documents incl. ones that fail while an unknown root member is skipped, p2j on a truncated message; on a fixed annotated service: an empty-body GET whose required field comes from the query, a request rejected because a required field has no source under ReadHttpValueFallback+Traceback, a complete request under the same options, t2j of a response whose outer struct lacks a required field while holding a nested struct) sharing descriptors, converter objects and read-only inputs, in a -race binary; every successful operation is checked against the reference oracles (reference encoder, strict JSON reader, protobuf-go), failing inputs must fail, every result handed out is compared with its copy after all goroutines finished, inputs and descriptor dump must be unchanged; a data race reported by the race detector is a violation; non-trivial = >= 2 goroutines and >= 6 operations",
+	Rule: "generated Thrift descriptor + conforming message + JSON document, generated proto3 schema + message, and a drawn history: 1..8 goroutines, each with a drawn list of operations (t2j, j2t, t2j HTTPConv.Do, j2t HTTPConv.Do, proto DOM Load+Marshal, t2j on a truncated message, j2t on a truncated document, DOM Load+Marshal, MarshalTo, GetByPath, descriptor lookups, p2j+j2p, j2p on malformed documents incl. ones that fail while an unknown root member is skipped, p2j on a truncated message; on a fixed annotated service: an empty-body GET whose required field comes from the query, a request rejected because a required field has no source under ReadHttpValueFallback+Traceback, a complete request under the same options, t2j of a response whose outer struct lacks a required field while holding a nested struct, t2j with Kitex http encoding delivering header values out of a buffer the caller then overwrites) sharing descriptors, converter objects and read-only inputs, in a -race binary; every successful operation is checked against the reference oracles (reference encoder, strict JSON reader, protobuf-go), failing inputs must fail, every result handed out is compared with its copy after all goroutines finished, inputs and descriptor dump must be unchanged; a data race reported by the race detector is a violation; non-trivial = >= 2 goroutines and >= 6 operations",
 	Gen: func(t *rapid.T) Case {
 		cfg := tm.GenCfg{MaxDepth: 2, KeyKinds: tjson.SupportedKeys, Reqs: true, Aliases: true, ValidUTF8: true, FiniteDoubles: true, RootStruct: true, WireOrder: true, MaxWidth: 4}
 		u := tm.GenUniverse(t, cfg)
